@@ -403,7 +403,10 @@ class Check(PropertyCheck):
             total = sum(d for job in jobs for _, d in job)
             meta = r.choice([{"lower_bound": opt + r.randint(1, 9)}, {"upper_bound": max(0, opt - r.randint(1, 3))},
                              {"lower_bound": total + 5, "upper_bound": total + 9}, {"optimum": opt + 3},
-                             {"lower_bound": opt + 2, "upper_bound": opt + 2, "optimum": opt + 2}])
+                             {"lower_bound": opt + 2, "upper_bound": opt + 2, "optimum": opt + 2},
+                             # (notes of an earlier heuristic run that happen to use the solver's own metadata keys)
+                             {"makespan": opt + r.randint(1, 9), "status": "feasible"},
+                             {"makespan": total, "status": "optimal", "elapsed_time": 99.0, "solved_by": "SomeHeuristic"}])
             inst = jsl.JobShopInstance([[jsl.Operation(ms[0], d) for ms, d in job] for job in jobs], name="stale", **meta)
             try:
                 sched = _ORToolsSolver().solve(inst)
